@@ -62,6 +62,7 @@ func runC13(p *Prog, r *Report, tier string) {
 		r.Undecided("R-LOCK.guarded", "anchor: guarded accesses of AggregationProcess", "pkg/intermediate/aggregate.go", "fewer than 10 guarded accesses found: the guarded-field table no longer matches the code")
 	}
 	checkSingleSection(p, r, "R-LOCK.whole-op", aggMutex, "pkg/intermediate")
+	checkLockBearingReceivers(p, r, "R-LOCK.receiver", "pkg/intermediate")
 	checkNoEscape(p, r, gs, "R-LOCK.escape", "pkg/intermediate", nil)
 	// query results (GetRecords -> GetElementMap) hand out the elements' byte slices: later ingestion must not write into them
 	checkValueSettersFresh(p, r, "R-LOCK.escape-values")
